@@ -6,7 +6,7 @@ import ProductMD.Proofs.PyValEq
 C10, rpms side: which architecture keys `Rpms.add` can create, inversion lemmas for the loops of the 0.3 reader
 (`Model/RpmsLegacy.lean`, builder c05), and the invariants carried through them.
 -/
-namespace PM.Mf
+namespace PM.Mf.C10
 open PM PM.Spec
 open PM.PyOps (iter subscript item pyEq)
 set_option Elab.async false
@@ -119,7 +119,7 @@ theorem mem_archKeys_setPathS (f : PyVal → PyVal × Out) (v a k : Str) (s : Py
 
 /-- **one call**: `Rpms.add` creates no arch key but the admissible one it was called with -/
 theorem keysOK_add (s : PyVal) (a : RpmsArgs) (h : KeysOK s) : KeysOK (Rpms.add s a).1 := by
-  unfold Rpms.add
+  rw [Rpms.add_eq]
   cases hc : rpmsCheck a with
   | error e => exact h
   | ok p =>
@@ -343,4 +343,4 @@ theorem manifest03_inv {pl s : PyVal} (h : manifest03 pl = .ok s) (h0 : P empty)
 
 end inv
 
-end PM.Mf
+end PM.Mf.C10
